@@ -199,8 +199,24 @@ def mon_c02(ctx, k, inp):
     waited = set()
     if k.outcome.startswith('exception') or k.outcome == 'blocked':
         ps = ps[:-1]          # the snapshot taken after the loop died is not a main-loop boundary
+    group_of = {p['name']: p.get('group', p['name']) for p in k.programs.values()}
+    orphans = set()     # children of process objects whose group has been removed (only an UNKNOWN process can still have
+                        # one: removal requires stopped states); they belong to no current process object any more
     for recs, b in ps:
         for i, r in enumerate(recs):
+            if r['kind'] == 'rpc-answer' and r.get('method') == 'supervisor.removeProcessGroup' and r.get('value') is True:
+                rb = next((q for q in recs[:i][::-1] if q['kind'] == 'rpc-begin' and q.get('id') == r.get('id')), None)
+                g = rb['args'][0] if rb and rb.get('args') else None
+                for nm, pids in unreaped.items():
+                    if group_of.get(nm) == g:
+                        orphans |= pids
+                        for pid in pids:
+                            name_of.pop(pid, None)
+                        unreaped[nm] = set()
+            if r['kind'] == 'wait' and r.get('pid') in orphans:
+                orphans.discard(r['pid'])
+                ctx.count('orphan-of-removed-group-reaped')
+                continue
             if r['kind'] == 'fork':
                 if unreaped.get(r['name']):
                     ctx.violation('second-child-forked', 'fork for %s while child(ren) %s not yet reaped' % (r['name'], sorted(unreaped[r['name']])), inp)
@@ -228,7 +244,7 @@ def mon_c02(ctx, k, inp):
         kern = b['kernel']
         for full, (st, pid) in b['procs'].items():
             nm = full.split(':')[1]
-            kids = kern.get(nm, [])
+            kids = [kd for kd in kern.get(nm, []) if kd[0] not in orphans]
             if st == 1000:
                 continue
             if st in LIVE:
